@@ -143,6 +143,15 @@ fn log_ret(r: &str, v: i64, same: bool) {
     }
 }
 
+fn mark_leaving(h: &H) {
+    let mut st = rt().lock();
+    for loc in h.layout() {
+        if loc.name == "token" {
+            st.leaving.insert(loc.addr);
+        }
+    }
+}
+
 fn set_retrying(on: bool) {
     let t = tid();
     let mut st = rt().lock();
@@ -409,6 +418,7 @@ fn exec_op(op: &Value, fut_default: bool) -> bool {
             // owning blocking iterator: consumes the handle, runs until the end of the stream
             if let Some(h) = { call_point(); tbl_wait(hn); tbl_take(hn) } {
                 let hk = h.kind();
+                mark_leaving(&h);
                 let with_view = op["view"].as_bool().unwrap_or(false);
                 match h.into_blocking_iter(with_view) {
                     Ok(It::B(mut it)) => loop {
@@ -471,6 +481,7 @@ fn exec_op(op: &Value, fut_default: bool) -> bool {
         "drop" => {
             if let Some(h) = { call_point(); tbl_wait(hn); tbl_take(hn) } {
                 let hk = h.kind();
+                mark_leaving(&h);
                 prim("drop", "drop", hn, hk, -1, "", || {
                     drop(h);
                     Res::Ok
@@ -480,12 +491,15 @@ fn exec_op(op: &Value, fut_default: bool) -> bool {
         "unsub" => {
             if let Some(h) = { call_point(); tbl_wait(hn); tbl_take(hn) } {
                 let hk = h.kind();
+                mark_leaving(&h);
                 prim("unsub", "unsubscribe", hn, hk, -1, "", || h.unsubscribe());
             }
         }
         "into_single" | "into_multi" | "transform" => {
             if let Some(h) = { call_point(); tbl_wait(hn); tbl_take(hn) } {
                 let hk = h.kind();
+                // the futures conversions drop the old handle internally
+                mark_leaving(&h);
                 let mut back = None;
                 prim(name, name, hn, hk, -1, "", || {
                     let r = match name {
@@ -592,6 +606,8 @@ pub fn run_opt(
         st.cur_epoch = 0;
         st.retired.clear();
         st.live_tokens = 0;
+        st.tokens.clear();
+        st.leaving.clear();
     }
     payload::reset_serials();
     *TBL.lock().unwrap_or_else(|p| p.into_inner()) = Some(HashMap::new());
